@@ -9,6 +9,7 @@ import (
 	"sync"
 	"time"
 
+	"github.com/jig/lisp"
 	"github.com/jig/lisp/env"
 	"github.com/jig/lisp/types"
 )
@@ -21,6 +22,7 @@ type concurrentCase struct {
 	Progs  [][]Node `json:"progs"`
 	Allows []Allow  `json:"allows"`
 	Texts  []string `json:"texts"`
+	Shared string   `json:"shared"` // definitions evaluated (from text) before the concurrent phase
 }
 
 var (
@@ -88,8 +90,18 @@ func runConcurrent(c *Case) Verdict {
 		if err != nil {
 			return Verdict{Verdict: "infra", Note: err.Error()}
 		}
+		if c.Shared != "" {
+			ast, rerr := lisp.READ("(do "+c.Shared+"\n)", nil, ns)
+			if rerr != nil {
+				return Verdict{Verdict: "infra", Note: "shared definitions: " + rerr.Error()}
+			}
+			if _, eerr := lisp.EVAL(context.Background(), ast, ns); eerr != nil {
+				return Verdict{Verdict: "infra", Note: "shared definitions: " + eerr.Error()}
+			}
+		}
 		probe.mu.Lock()
 		probe.EffBy = map[int64][]Node{}
+		probe.Eff = nil
 		probe.mu.Unlock()
 		if rec != nil {
 			rec.mu.Lock()
